@@ -150,6 +150,13 @@ def chunk_values(rng, n):
 
 
 def make_table(rng, case):
+    if case["index"] % 5 == 4:
+        from vf.gens import prot
+
+        db = prot.protein_db(rng, n_prot=90, anagrams=6)
+        tab = prot.psm_table_for_db(rng, db, n_spectra=int(rng.integers(250, 400)), styles=("plain", "mod_sq"), sep=1.5)
+        tab["db"] = db
+        return tab
     grouped = bool(case["index"] % 3 == 1)
     tab = psm.psm_table(rng, n_spectra=int(rng.integers(120, 330)), mult_max=int(rng.integers(1, 5)),
                         key_cols=[("ExpMass",), ("filename", "ExpMass"), ()][case["index"] % 3], n_files=2,
@@ -173,6 +180,11 @@ def run_inproc(case):
                       peps_algorithm=["kde_nnls", "qvality", "kde_nnls"][case["index"] % 3])
         if common["learner"] == "knn:proba":
             common["peps_algorithm"] = "qvality"  # scores in [0,1] with a pile-up at 0: the KDE pi0 slope often fails
+        if tab.get("db") is not None:
+            from vf.gens import prot
+
+            common["fasta"] = str(prot.write_fasta(tab["db"], d / "db.fasta", with_decoys=True))
+            common["fasta_kwargs"] = dict(missed_cleavages=0, min_length=6)
         base = pipeline_main.run(dict(common, paths=[str(pin)], dest=str(d / "base"), workers=1))
         bfiles = read_files(d / "base") if base["status"] == "ok" else {}
         res.count("pipeline_runs")
